@@ -38,7 +38,10 @@ type umsg struct {
 	id   int
 	slow bool
 }
-type smsg struct{ id int }
+type smsg struct {
+	id   int
+	slow bool
+}
 
 type thread struct {
 	name    string
@@ -135,6 +138,9 @@ func (c *ctl) InvokeSystemMessage(m interface{}) {
 		c.invLog = append(c.invLog, fmt.Sprintf("s:%d", s.id))
 		c.dlvS = append(c.dlvS, s.id)
 		c.mu.Unlock()
+		if s.slow {
+			time.Sleep(12 * time.Millisecond) // a slow system handler also exhausts the frame budget
+		}
 	}
 }
 func (c *ctl) InvokeUserMessage(m interface{}) {
@@ -242,7 +248,7 @@ func runCase(h *hx.T, posters []poster, choose func(c *ctl, parked []*thread, st
 					case "r":
 						mb.PostSystemMessage(&actor.ResumeMailbox{})
 					default:
-						mb.PostSystemMessage(&smsg{id: m.id})
+						mb.PostSystemMessage(&smsg{id: m.id, slow: m.slow})
 					}
 				}
 			}
@@ -273,7 +279,7 @@ func runCase(h *hx.T, posters []poster, choose func(c *ctl, parked []*thread, st
 			op += fmt.Sprintf(" msg=%d slow=%d", th.curMsg, hx.B2i(th.curSlow))
 		}
 		if pt == "ps.push" {
-			op += fmt.Sprintf(" msg=%d sk=%s", th.curMsg, th.curSK)
+			op += fmt.Sprintf(" msg=%d sk=%s slow=%d", th.curMsg, th.curSK, hx.B2i(th.curSlow))
 			sysOrder = append(sysOrder, pmsg{id: th.curMsg, sk: th.curSK})
 		}
 		c.mu.Lock()
@@ -288,7 +294,7 @@ func runCase(h *hx.T, posters []poster, choose func(c *ctl, parked []*thread, st
 		synctest.Wait()
 		// the granted goroutine may be inside a (virtual) sleep: the helper's 1 ms, or a slow
 		// handler's 12 ms; let exactly that much time pass.  Anywhere else "not parked" = returned.
-		maySleep := (th.kind == "h" && pt == "hp.sleep") || (th.kind == "c" && pt == "run.popu")
+		maySleep := (th.kind == "h" && pt == "hp.sleep") || (th.kind == "c" && (pt == "run.popu" || pt == "run.pops"))
 		for i := 0; i < 40; i++ {
 			c.mu.Lock()
 			settled := th.parked || th.done
@@ -379,7 +385,15 @@ func genPosters(h *hx.T) []poster {
 		n := 1 + h.R.Intn(3)
 		kinds := []string{"n", "s", "r", "n", "s", "r", "r"}
 		for k := 0; k < n; k++ {
-			p.msgs = append(p.msgs, pmsg{id: 9000 + k + 1, sk: kinds[h.R.Intn(len(kinds))]})
+			sk := kinds[h.R.Intn(len(kinds))]
+			p.msgs = append(p.msgs, pmsg{id: 9000 + k + 1, sk: sk, slow: sk == "n" && h.R.Intn(3) == 0})
+		}
+		if h.R.Intn(6) == 0 {
+			// directed: suspended, then a slow system handler starts a smoothing pause, then resume —
+			// the pause helper's wake-up is what must bring the consumer back
+			p.msgs = []pmsg{{id: 9001, sk: "s"}, {id: 9002, sk: "n", slow: true}, {id: 9003, sk: "r"}}
+			n = 3
+			h.Count("gen.suspend-slowsys-resume")
 		}
 		// mostly end resumed so that user messages must all be delivered
 		if h.R.Intn(4) != 0 {
@@ -393,7 +407,8 @@ func genPosters(h *hx.T) []poster {
 
 // schedules
 func chooser(h *hx.T, mode int) func(c *ctl, parked []*thread, step int) *thread {
-	var sticky *thread
+	var sticky, victim *thread
+	phase, budget := 0, 0
 	return func(c *ctl, parked []*thread, step int) *thread {
 		switch mode {
 		case 0: // uniform
@@ -429,6 +444,64 @@ func chooser(h *hx.T, mode int) func(c *ctl, parked []*thread, step int) *thread
 				return cons[h.R.Intn(len(cons))]
 			}
 			return parked[h.R.Intn(len(parked))]
+		case 4: // delay-bounded victim: when the consumer is about to store idle (its last pops found nothing), one poster
+			// takes K of its steps inside that window and is then held until the consumer has finished going idle
+			var cons *thread
+			var posters []*thread
+			for _, th := range parked {
+				if th.kind == "c" {
+					cons = th
+				} else if th.kind == "u" || th.kind == "s" {
+					posters = append(posters, th)
+				}
+			}
+			if victim != nil && victim.done {
+				victim, phase = nil, 0
+			}
+			switch phase {
+			case 0:
+				if cons != nil && cons.point == "pm.idle" && len(posters) > 0 {
+					victim = posters[h.R.Intn(len(posters))]
+					budget = 1 + h.R.Intn(4)
+					phase = 1
+					return victim
+				}
+				if cons != nil && h.R.Intn(5) != 0 {
+					return cons
+				}
+				return parked[h.R.Intn(len(parked))]
+			case 1:
+				budget--
+				if budget > 0 {
+					for _, th := range parked {
+						if th == victim {
+							return th
+						}
+					}
+				}
+				phase = 2
+				fallthrough
+			case 2:
+				if cons != nil {
+					return cons // until it is back at cons.take with nothing queued (then it is not in `parked`)
+				}
+				phase = 3
+				fallthrough
+			default:
+				// everybody but the victim, then the victim
+				var rest []*thread
+				for _, th := range parked {
+					if th != victim {
+						rest = append(rest, th)
+					}
+				}
+				if len(rest) > 0 && h.R.Intn(4) != 0 {
+					return rest[h.R.Intn(len(rest))]
+				}
+				phase = 0
+				victim = nil
+				return parked[h.R.Intn(len(parked))]
+			}
 		default: // consumer-first: drain eagerly so posters keep finding the mailbox idle
 			for _, th := range parked {
 				if th.kind == "c" && h.R.Intn(4) != 0 {
@@ -504,7 +577,9 @@ func TestRun(t *testing.T) {
 	synctest.Test(t, func(t *testing.T) {
 		h := hx.Open()
 		if ops := hx.ReplayOps(); ops != nil {
-			if isMpscConcOps(ops) { // concurrent-mpsc witness (mpsc_test.go)
+			if isSdOps(ops) { // dispatcher witness (sched_test.go)
+				replaySdOps(h, ops)
+			} else if isMpscConcOps(ops) { // concurrent-mpsc witness (mpsc_test.go)
 				replayMpscOps(h, ops)
 			} else if isQueueOps(ops) { // queue-component witness (ring_test.go)
 				replayQueueOps(h, ops)
@@ -516,7 +591,7 @@ func TestRun(t *testing.T) {
 		}
 		n := hx.EnvInt("VERIF_N", 300)
 		for i := 0; i < n; i++ {
-			mode := h.R.Intn(4)
+			mode := h.R.Intn(5)
 			h.Count(fmt.Sprintf("schedule.mode%d", mode))
 			runCase(h, genPosters(h), chooser(h, mode))
 		}
